@@ -303,6 +303,8 @@ class RegDriver:
                 raise Mismatch("class", f"{s}: {self.class_of(o)} expected {rec['c']}")
             p = rec["p"] if rec["p"] != [] else {}
             for f in self.W.zi.prop_fields(c):
+                if f.get("derived"):
+                    continue        # filled in by the class itself from another field
                 want = self.W.prop_value(c, f, p[f["n"]])
                 got = getattr(o, f["n"])
                 if type(got) is not type(want) or got != want:
